@@ -411,6 +411,6 @@ def execute(cases_, tier, seed):
     res.bound = ("tier=%s: n=1 complete (with/without sharing definition); n=2 complete with <=%d edges per node%s; compile tier: %d graphs"
                  % (tier, 1 if tier == "quick" else 2, "" if tier == "quick" else " (with/without sharing); n=3 over the reduced alphabet", len(placed)))
     res.assumptions = ["containment graph = Type::details() edges with Box/Vec/Map/Set removed"]
-    if len(cases_) > 50 and (res.nontrivial < 20 or n_box_graphs < 20):
+    if not res.violations and (len(cases_) > 50 and (res.nontrivial < 20 or n_box_graphs < 20)):   # a subject that breaks everything is reported through its violations, not as vacuity
         raise MachineryError("vacuity guard: nontrivial=%d graphs_with_box=%d" % (res.nontrivial, n_box_graphs))
     return res
